@@ -19,6 +19,9 @@ type Template struct {
 	Empty bool      // git init only: HEAD is unborn, indexing fails
 }
 
+// TemplateFiles: every non-empty template version has this many files (=> this many shards with -shard_limit 1).
+const TemplateFiles = 3
+
 func git(dir string, args ...string) (string, error) {
 	cmd := exec.Command("git", args...)
 	cmd.Dir = dir
